@@ -297,6 +297,24 @@ NestFam ==
 \* Two named types CompareTypes cannot tell apart, listed in both orders.
 TieFam == {A1, Nm("m", P(1)), XY, Un(<<XY, A1>>), Un(<<A1, XY>>), Un(<<A1, P(1)>>), Un(<<P(1), A1>>)}
 
+\* zed.CompareTypes: pairs of members of the same kind that differ in exactly
+\* one aspect, each pair listed in both orders.
+CmpPairs ==
+  {<<Rec(<<"a">>, <<P(1)>>), Rec(<<"b">>, <<P(1)>>)>>,                       \* field name
+   <<Rec(<<"a">>, <<P(1)>>), Rec(<<"a">>, <<P(2)>>)>>,                       \* field type
+   <<Rec(<<"b">>, <<P(1)>>), Rec(<<"a", "b">>, <<P(1), P(1)>>)>>,            \* number of fields
+   <<Rec(<<"a", "b">>, <<P(1), P(2)>>), Rec(<<"b", "a">>, <<P(1), P(2)>>)>>, \* field order
+   <<Arr(P(1)), Arr(P(2))>>, <<SetOf(P(1)), SetOf(P(2))>>, <<Err(P(1)), Err(P(2))>>,
+   <<Arr(P(1)), SetOf(P(1))>>, <<SetOf(P(2)), Err(P(1))>>,                   \* kinds
+   <<MapOf(P(1), P(2)), MapOf(P(2), P(1))>>, <<MapOf(P(1), P(1)), MapOf(P(1), P(2))>>,
+   <<En(<<"s">>), En(<<"t">>)>>, <<En(<<"t">>), En(<<"s", "t">>)>>, <<En(<<"s", "t">>), En(<<"t", "s">>)>>,
+   <<Un(<<P(1), P(2)>>), Un(<<P(1), Arr(P(1))>>)>>, <<Un(<<P(1), P(2)>>), Un(<<P(1), P(2), Arr(P(1))>>)>>,
+   <<Nm("m", P(1)), Nm("n", P(1))>>, <<Nm("n", P(1)), P(1)>>, <<Nm("n", P(1)), P(2)>>,
+   <<Nm("n", P(2)), Nm("m", Arr(P(1)))>>, <<Nm("m", Rec(<<"a">>, <<P(1)>>)), Rec(<<"a">>, <<P(1)>>)>>,
+   <<Nm("n", Rec(<<"a">>, <<P(1)>>)), Nm("n", Rec(<<"b">>, <<P(1)>>))>>,
+   <<Arr(Nm("n", P(1))), Arr(Nm("m", P(1)))>>, <<P(1), P(2)>>}
+CmpFam == {Un(pr) : pr \in CmpPairs} \cup {Un(<<pr[2], pr[1]>>) : pr \in CmpPairs}
+
 \* Concurrent decoders that use the same type name.
 ConcFam == {A1, A2, Rec(<<"a", "b">>, <<A1, A1>>), Rec(<<"a", "b">>, <<A2, A2>>), MapOf(A1, A1),
             Rec(<<"a", "b">>, <<NN, NN>>)}
@@ -306,9 +324,10 @@ Targets == CASE Family = "level1" -> Level1
              [] Family = "named"  -> NamedFam
              [] Family = "nest"   -> NestFam
              [] Family = "tie"    -> TieFam
+             [] Family = "cmp"    -> CmpFam
              [] Family = "conc"   -> ConcFam
              [] Family = "conc-small" -> ConcSmall
-             [] Family = "all"    -> Level1 \cup NamedFam \cup NestFam \cup TieFam
+             [] Family = "all"    -> Level1 \cup NamedFam \cup NestFam \cup TieFam \cup CmpFam
 
 Calls == [m : Methods \ {"tdef", "reset"}, ot : Targets, nm : {""}]
          \cup (IF "tdef" \in Methods THEN [m : {"tdef"}, ot : {NoT}, nm : TypeNames] ELSE {})
